@@ -5,8 +5,9 @@
 (* start (the check prepends the setPathPrefix call).  The back end is scheduled canonically here (everything is   *)
 (* handed over during disable()): batch boundaries are the real pipe's business, they are not part of a script.    *)
 EXTENDS TraceSink, Json
-CONSTANTS Depth, GThreads, GEx, GMax, GOps
-Pairs == {<<"f", "a", 1>>, <<"g", "b", 1>>, <<"f", "b", 2>>}      \* (name, module, line) of a commit
+CONSTANTS Depth, GThreads, GEx, GMax, GOps, GPairs
+AllPairs == <<<<"f", "a", 1>>, <<"f", "b", 2>>, <<"g", "b", 1>>>>       \* (name, module, line) of a commit
+Pairs == {AllPairs[i] : i \in 1..GPairs}
 VARIABLES hist, nk
 gvars == <<vars, hist, nk>>
 H(e) == hist' = Append(hist, e)
